@@ -27,7 +27,9 @@ CLAIMED["C10"] = dict(
     text="The out-of-range clause is proved over the full double domain (loop-free harnesses on the real range "
          "tests of vnacal_new_add_*/set_frequency_vector, vnacal_new_set_m_error, vnacal_get_parameter_value and "
          "the bound functions used by apply): a >=5% miss at either end is refused, full coverage is accepted; the "
-         "frequency range of a correlated parameter is the intersection of its correlate's range and its sigma grid. "
+         "frequency range of a correlated parameter is the intersection of its correlate's range and its sigma grid; the "
+         "re-check of standards added BEFORE the frequency vector (_vnacal_new_check_all_frequency_ranges) reaches the "
+         "parameter whatever bucket it hashes to; a single noise point is accepted whatever the (unused) frequency says. "
          "The segment search of _vnacal_rfi is closed by DFCC loop contracts for any number of iterations "
          "(bracketing postcondition, termination). Exactness at the knots is proved for the spline evaluator "
          "(any coefficients) and for _vnacal_rfi with up to 4 knots and any hint: bounded in the number of "
@@ -80,7 +82,8 @@ CLAIMED["C04"] = dict(
          "files on every run and executed symbolically (sequential memory semantics); for each the generated "
          "verification conditions - every port state satisfying the input representation's defining relation of "
          "vnaconv(3) satisfies the output's with the computed matrix (complex, unequal z0, K_i = 1/sqrt|Re z_i|), "
-         "in-place call equals out-of-place call, converting back returns the original, Zin_k = v_k/i_k with the "
+         "in-place call equals out-of-place call (for the Zin functions: the vector laid over the input matrix, as vnadata_convert "
+         "does in place), converting back returns the original, Zin_k = v_k/i_k with the "
          "other port terminated, and DOM: the code divides only by quantities that are nonzero for Re z0 > 0 or vanish "
          "only inside the singular set of the conversion it computes (zero set of the reduced result's denominators), "
          "so no input of the conversion's domain is lost to an intermediate form - are discharged by sympy as "
@@ -134,13 +137,15 @@ CLAIMED["C13"] = dict(
          "or 8 (including completely full) for subscript/insert/append/delete/count with the whole-sequence "
          "postcondition (children before kept, after shifted, slack slots null, deleted subtree freed); maps by "
          "every 3-step set/get/delete sequence from the empty map over keys chosen to share a hash bucket, "
-         "against an insertion-ordered model, with no leak on failed lookups.  vnaproperty_quote_key against the real "
+         "against an insertion-ordered model, with no leak on failed lookups; map_compare_keys carries a full-domain function "
+         "contract (sign of the result = sign of the (hash value, key) comparison: a total order, loop-free proof).  vnaproperty_quote_key against the real "
          "scanner: for keys of 1-2 bytes (3 in thorough) with one representative byte per scanner character class at "
          "each position (every one-byte key in thorough) the quoted key scans as exactly one identifier whose text is "
          "the original key, with nothing after it.  The descriptor parser on a SAMPLE of concrete descriptors (set, get, "
-         "get_subtree, delete; trailing tokens, syntax error, missing key, type mismatch): documented errno, refused "
-         "calls change nothing, no leak.",
-    note="descriptor language only sampled (7 concrete histories), vnacal_property_* wrappers not covered; "
+         "get_subtree, delete, copy; trailing tokens, syntax error, missing key, type mismatch, nested maps, key order, "
+         "quoted and escaped keys with trailing spaces, empty containers): documented errno, refused calls change nothing, "
+         "copy preserves empty maps and lists, no leak.",
+    note="descriptor language only sampled (12 concrete histories), vnacal_property_* wrappers not covered; "
          "<ctype.h> by a C-locale table model; vasprintf by contract (formats without conversions); bounded sizes",
     design="DESIGN.md 3 C13, 8.5",
     technique="CBMC contract harnesses on the static container functions (sequence / ordered-map views)",
@@ -155,6 +160,9 @@ CLAIMED["C01"] = dict(
          "representation invariant and resolves every handle - VNACAL_ZERO above all - to the one node created for it, "
          "also after the table has grown with a colliding handle present (node identity with vn_zero is how known-zero "
          "cells are recognised). "
+         "(0c) which standards contribute a leakage sample to which cell (ports not connected THROUGH the standard) and its "
+         "value, for the leakage types on 3 ports; (0d) deleted handles are refused by vnacal_new_add_* while recorded uses "
+         "and referrers keep working. "
          "(1) _vnacal_layout carries a DFCC function contract: for all 9 error-term "
          "types and dimensions 1..8 the sub-matrix regions plus outside leakage terms partition [0, error_terms) "
          "and every region has the size documented by the header's own VL_*_ROWS/COLUMNS macros (full, diagonal or "
@@ -229,7 +237,8 @@ CLAIMED["C20"] = dict(
          "standards untouched (so adding the missing ones and solving again is admissible) and leaks nothing - "
          "with and without the measurement-error model; the same holds for E12/UE14 when only ONE column system is "
          "short of equations while another has enough, whatever the linear kernels return (assumed contract: any rank "
-         "<= min(m,n), any determinant).",
+         "<= min(m,n), any determinant); unknown standard parameters count as unknowns (real _vnacal_new_solve_auto around "
+         "kernel contracts); the TRL short-cut test classifies any three standards without touching unspecified S cells.",
     note="histories from a fresh object on concrete small shapes, not an arbitrary well-formed object; 'every "
          "determining set solves and corrects exactly' (numerical rank/accuracy), solve_auto/TRL: NOT covered",
     design="DESIGN.md 3 C20, 8.16",
